@@ -278,14 +278,16 @@ theorem condOK_pp (c : X.Expr) (hpp : ppE G.pnames G.xc.impure c = true) : CondO
   have hleaf : ∀ k, k ≤ F → CallLeaf (KOf G pi sp dep hi) G.pnames k :=
     fun k hk => callLeaf_of_spec ok pk hpi sp dep hi hlo hspv hstack k (fun j hj => hcs j (by omega))
   refine ⟨?_, ?_, ?_, ?_⟩
-  · intro st mem cd s hr
-    exact eval_pp_noexit G.xc G.pnames hps pk F c st cd s hpp (noLoc_of_rep hr)
-  · intro st mem v s hr hev
-    exact ((eval_pp_sim G.xc G.pnames hps pk F c st v s hpp (noLoc_of_rep hr) hev).2.2.2.1).symm
-  · intro st mem v s hr hev m hm
-    exact hm.sim (eval_pp_sim G.xc G.pnames hps pk F c st v s hpp (noLoc_of_rep hr) hev)
   · intro st mem w s hr hev
-    exact expr_pp_correct (KOf G pi sp dep hi) wf.toWF G.pnames pk hps F hleaf c st w s hpp (noLoc_of_rep hr) hev
+    exact (expr_pp_correct (KOf G pi sp dep hi) wf.toWF G.pnames pk hps F hleaf c st w s hpp (noLoc_of_rep hr) hev :
+      ExecAt false _ _ w st).sim_right (eval_pp_sim G.xc G.pnames hps pk F c st _ s hpp (noLoc_of_rep hr) hev)
+  · intro st mem cd s hr hev
+    exact absurd hev (eval_pp_noexit G.xc G.pnames hps pk F c st cd s hpp (noLoc_of_rep hr))
+  · intro _ st mem v s hr hev
+    have hsim := eval_pp_sim G.xc G.pnames hps pk F c st v s hpp (noLoc_of_rep hr) hev
+    exact ⟨hsim.2.2.2.1.symm, fun m hm => hm.sim hsim⟩
+  · intro _ st mem cd s hr
+    exact eval_pp_noexit G.xc G.pnames hps pk F c st cd s hpp (noLoc_of_rep hr)
 
 /-- A right-hand side with calls of pure functions. -/
 theorem execE_pp (e : X.Expr) (hpp : ppE G.pnames G.xc.impure e = true) (st : X.St) :
@@ -295,26 +297,17 @@ theorem execE_pp (e : X.Expr) (hpp : ppE G.pnames G.xc.impure e = true) (st : X.
   unfold OutE
   cases hev : X.eval F G.xc e st with
   | undef w => trivial
-  | exit cd s => exact absurd hev (hC.noexit st mem cd s hr)
+  | exit cd s =>
+    obtain ⟨c', st', he⟩ := hC.exit st mem cd s hr hev gs code gs' i a b mem hgen hat hr hsz hnl hci
+    exact ⟨c', st', he⟩
   | ok v s =>
     cases v with
     | arr r => trivial
     | int w =>
       obtain ⟨b', mem', st1, rep1, _⟩ := hC.exec st mem w s hr hev gs code gs' i a b mem hgen hat hr hsz hnl hci
-      refine ⟨b', mem', ?_, hC.rep st mem _ s hr hev _ rep1⟩
-      rw [hC.io st mem _ s hr hev]
-      exact st1
+      exact ⟨b', mem', st1, rep1⟩
 
 end
-
-theorem condOK_5 {G : GCtx} (ok : G.OK) {pi : PInfo} (hpi : pi ∈ G.procs) (sp dep : Nat)
-    (hi : Nat → Word) (hlo : G.lo ≤ sp) (hspv : sp + G.S pi + pi.po + pi.p.formals.length ≤ G.spv + 1)
-    (hstack : G.spv ≤ sp + dep * G.smax) (F : Nat) (hcs : ∀ k, k < F → CallSpec G k)
-    (c : X.Expr) (h : cond5 G.pk G.pnames G.xc.impure c = true) : CondOK (KOf G pi sp dep hi) F c := by
-  simp only [cond5, Bool.or_eq_true, Bool.and_eq_true] at h
-  rcases h with hp | ⟨hpk, hpp⟩
-  · exact condOK_pure _ (ok.wfs pi hpi sp dep hi hlo hspv).toWF F c hp
-  · exact condOK_pp ok (ok.pure_ok hpk) hpi sp dep hi hlo hspv hstack F hcs c hpp
 
 theorem exec_assign_eq (f : Nat) (xc : X.Ctx) (n : String) (e : X.Expr) (σ st : X.St) (ht : X.tick xc σ = some st) :
     X.exec (f + 1) xc (.assign n e) σ =
